@@ -1,5 +1,7 @@
 import WpModel.Drive.Loop
 import WpModel.Drive.Flex
 import WpModel.Drive.Grid
+import WpModel.Drive.C12Tags
 
-def main : IO Unit := Wp.Drive.runDriver [Wp.Drive.Flex.handle, Wp.Drive.Grid.handle]
+def main : IO Unit :=
+  Wp.Drive.runDriver [Wp.Drive.Flex.handle, Wp.Drive.Grid.handle, Wp.Drive.C12Tags.handle]
